@@ -41,6 +41,7 @@ C = [
  ('c07_both_branches', 'C07', ['ev'], 'parser.rs', r'if val \{\n                    return lhs\.exec\(ctx\);\n                \}', 'let l = lhs.exec(ctx);\n                if val {\n                    return l;\n                }'),
  ('c07_map_value_before_key', 'C07', ['ev'], 'parser.rs', r'ans\.push\(\(k\.exec\(ctx\)\?, v\.exec\(ctx\)\?\)\);', 'let vv_ = v.exec(ctx)?;\n            ans.push((k.exec(ctx)?, vv_));'),
  ('c07_element_twice', 'C07', ['ev'], 'parser.rs', r'(let mut ans = Vec::new\(\);\n        for expr in params \{\n            )ans\.push\(expr\.exec\(ctx\)\?\);', r'\1let first = expr.exec(ctx)?;\n            let _again = expr.exec(ctx)?;\n            ans.push(first);'),
+ ('c07_execute_evaluates_twice', 'C07', ['lb'], 'lib.rs', r'parse_expression\(expr\)\?\.exec\(&mut ctx\)', 'let ast = parse_expression(expr)?;\n    ast.exec(&mut ctx)?;\n    ast.exec(&mut ctx)'),
  # ---- C08 dispatch
  ('c08_register_without_init', 'C08', ['lb'], 'lib.rs', r'(use crate::function::InnerFunctionManager;\n)    init\(\);\n', r'\1'),
  ('c08_powers_not_doubled', 'C08', ['lb'], 'operator.rs', r'let l_bp = config\.0 \* 2;', 'let l_bp = config.0;'),
